@@ -188,6 +188,18 @@ def opF (c : Cx) (k : Nat) : String :=
   let calls := results.map (fun r => callRec (resultArray c.units r) r.start r.names)
   hx buf ++ "|" ++ joinWith ">" calls ++ s!"@{fin}"
 
+/-- generic replace-with-function where exec's captures are taken as reported by the engine (no `lowerBound`
+rule): used only to attribute a fast ≠ generic difference to that rule. -/
+def opFplain (c : Cx) (k : Nat) : String :=
+  let (results, fin) := genResults c k
+  let n := c.units.length
+  let buf := genericReplace c.units (results.map (fun r =>
+    let position := min r.start n
+    (position, r.stop - r.start, strUnits s!"<{position}>")))
+  let calls := results.map (fun r =>
+    callRec (some (sub c.units r.start r.stop) :: captureValsPlain c.units (r.idx.drop 2)) r.start r.names)
+  hx buf ++ "|" ++ joinWith ">" calls ++ s!"@{fin}"
+
 def namedLookup (groups : Option (List (String × Option (List Nat)))) (ref : List Nat) : Option (List Nat) :=
   match groups with
   | none => none
@@ -206,9 +218,17 @@ def opR (c : Cx) (k : Nat) (tmpl : List Nat) : String :=
     (position, r.stop - r.start, substitute c.units position vals (namedLookup (groupsOf vals r.names)) tmpl)))
   hx buf ++ s!"@{fin}"
 
+def opRplain (c : Cx) (k : Nat) (tmpl : List Nat) : String :=
+  let (results, fin) := genResults c k
+  let n := c.units.length
+  let buf := genericReplace c.units (results.map (fun r =>
+    let position := min r.start n
+    let vals := some (sub c.units r.start r.stop) :: captureValsPlain c.units (r.idx.drop 2)
+    (position, r.stop - r.start, substitute c.units position vals (namedLookup (groupsOf vals r.names)) tmpl)))
+  hx buf ++ s!"@{fin}"
+
 def opP (c : Cx) (lim : Option Nat) : String :=
-  let l := match lim with | some l => l | none => 4294967295
-  "[" ++ joinWith "," ((genericSplit c.f c.units c.fl.unicode l).map hxo) ++ "]@0"
+  "[" ++ joinWith "," ((genericSplit c.f c.units c.fl.unicode lim).map hxo) ++ "]@0"
 
 /-! ### fast paths: post-processing of the raw findAll lists -/
 
@@ -289,7 +309,8 @@ def opPred (f : List String) : String :=
   let fixP := fun (lim : Option Nat) => "[" ++ joinWith "," ((fastSplitFixed c.units alls lim).map hxo) ++ "]@0"
   let fast := joinWith ";" (fper ++ ["P=" ++ fastP c alls none, s!"PL{limit}=" ++ fastP c alls (some limit),
     "Pfix=" ++ fixP none, s!"PLfix{limit}=" ++ fixP (some limit)])
-  gen ++ "\t" ++ fast
+  let plain := joinWith ";" (starts.flatMap (fun k => [s!"F{k}=" ++ opFplain c k, s!"R{k}=" ++ opRplain c k tmpl]))
+  gen ++ "\t" ++ fast ++ "\t" ++ plain
 
 def fmtList (l : List MatchR) : String :=
   if l.isEmpty then "-" else joinWith "|" (l.map (fun r => joinWith "." (r.idx.map toString)))
